@@ -38,8 +38,8 @@ def plan(tier, seed):
   for k in range(16):
     specs.append({'kind': 'random', 'seed': seed, 'slice': k, 'n': n, 'hashseed': (seed * 16 + k) % 4294967295,
                   'tier': tier})
-  for k in range(8 if tier == 'quick' else 16):
-    specs.append({'kind': 'skeleton', 'seed': seed, 'slice': k, 'parts': 8 if tier == 'quick' else 16,
+  for k in range(16):
+    specs.append({'kind': 'skeleton', 'seed': seed, 'slice': k, 'parts': 16,
                   'tier': tier, 'hashseed': (seed * 16 + k + 7) % 4294967295})
   return specs
 
